@@ -1,8 +1,18 @@
 """C20 xtime: SleepContext honours d and the deadline; JitterTicker keeps its spacing (spec/xtime)."""
 from bubblecommon import bubble_tv
+from common import mc, mc_must_fail
+
+
+def design(ctx):
+    # D: JitterTicker over a discrete clock (mutex, gen, timer, started callbacks, channel of capacity 1, Stop, Reset):
+    #    spacing >= d - jitter and no tick after Stop under every interleaving; Stop without gen++ must fail (teeth)
+    for cfg in ("jt_a.cfg", "jt_c.cfg") + (() if ctx.quick() else ("jt_b.cfg",)):
+        mc(ctx, "xtime", "JitterTicker", cfg, "JitterTicker I-layer " + cfg, coverage=False)
+    mc_must_fail(ctx, "xtime", "JitterTicker", "jt_nogen.cfg", "Stop relying on timer.Stop alone", expect="NoTickAfterStop")
 
 
 def run(ctx):
+    design(ctx)
     # T: fake-clock bubbles (exact, no tolerance): SleepContext for every duration x deadline position x
     #    cancellation moment; JitterTicker for (d, jitter) pairs incl. jitter = 0 with Reset / Stop at every
     #    phase, channel watched for 10*d after Stop; judged by Trace_XTime
